@@ -2,7 +2,7 @@
 //! the same transition system is handed to stateright's BFS checker and the two engines must
 //! agree on the number of unique states and on the number of oracle violations.
 use crate::chist::{Act, ChSys, St};
-use crate::ciphers::Kind;
+use crate::ciphers::KindInternals as Kind;
 use crate::explore::{Step, Sys};
 use stateright::{Checker, Model, Property};
 use std::sync::atomic::{AtomicU64, Ordering};
